@@ -17,6 +17,8 @@ PROGRAMS = {
     "swallower_loud": ("while not stop_flag[0]:\n    try:\n        while not stop_flag[0]:\n            print('s')\n"
                        "    except BaseException:\n        pass\n"),
     "blocked": "gate.acquire()\nprint('woke')\n",
+    "importer": "import helper_loop\n",
+    "printer_slow": "while True:\n    print('s')\n    for i in range(20000):\n        pass\n",
     # a retry loop that catches Exception (not BaseException): the injected SystemExit must get through
     "catcher": ("n = 0\nwhile not stop_flag[0]:\n    try:\n        while not stop_flag[0]:\n            n += 1\n"
                 "            if n % 50 == 0:\n                print('s')\n    except Exception:\n        pass\n"),
@@ -48,9 +50,15 @@ def run_kind(kind, allowed=0.08, fin_n=200000, controller=None):
     next_threaded = kind.endswith("_tn")
     base = kind[:-3] if next_threaded else kind
     src = PROGRAMS[base]
-    report.contextualize(Submission(files={"answer.py": src}))
+    files = {"answer.py": src}
+    if base == "importer":
+        # the non-terminating code sits in a SECOND student file, reached through import while the sandbox is threaded
+        files["helper_loop.py"] = PROGRAMS["printer_slow"]
+    report.contextualize(Submission(files=files, main_file="answer.py", main_code=src))
     sb = report["sandbox"]["sandbox"]
     sb.allowed_time = allowed
+    if base == "importer":
+        sb.threaded = True
     gate = threading.Lock()
     gate.acquire()
     stop_flag = [False]
